@@ -344,3 +344,31 @@ func (h *harness) bridgeStream(n int) {
 		ctx.Meta.Evaluations++
 	}
 }
+
+// replayKnownGo replays the known findings whose witness is Go-level.
+func (h *harness) replayKnownGo() {
+	ctx := h.ctx
+	if _, ok := ctx.Known["C18-invalid-utf8-replaced"]; ok {
+		scope := slip.NewScope()
+		scope.Let(slip.Symbol("b"), newBag("a\xffb"))
+		out := common.EvalIn(scope, "(make-bag (bag-write b :json t :pretty nil :depth 0))")
+		got := "error"
+		if inst, isBag := out.Value.(*flavors.Instance); isBag && out.Err == "" {
+			got = strconv.QuoteToASCII(fmt.Sprint(inst.Any))
+		}
+		ctx.KnownResult("C18-invalid-utf8-replaced", got != strconv.QuoteToASCII("a\xffb"), got)
+	}
+	if _, ok := ctx.Known["C18-bridge-false"]; ok {
+		got := slip.Simplify(slip.SimpleObject(false))
+		ctx.KnownResult("C18-bridge-false", got == nil, fmt.Sprint(got))
+	}
+	if _, ok := ctx.Known["C18-bridge-map"]; ok {
+		got := slip.Simplify(slip.SimpleObject(map[string]any{"a": 1}))
+		_, isMap := got.(map[string]any)
+		ctx.KnownResult("C18-bridge-map", !isMap, fmt.Sprint(got))
+	}
+	if _, ok := ctx.Known["C18-bridge-uint64"]; ok {
+		got := slip.Simplify(slip.SimpleObject(uint64(1 << 63)))
+		ctx.KnownResult("C18-bridge-uint64", fmt.Sprint(got) != "9223372036854775808", fmt.Sprint(got))
+	}
+}
